@@ -49,7 +49,15 @@ fn remote_at(cal: &Calendar, today: i32, year: i32) -> BTreeMap<i32, Vec<(i32, D
 
 pub fn gen_case(r: &mut Rng, idx: u64, thorough: bool) -> CrashCase {
     let year = *r.pick(&[2016, 2017, 2019, 2020, 2024]);
-    let days = if thorough && idx % 3 == 2 { r.range(300, 366) as i32 } else { r.range(25, 45) as i32 };
+    // thorough tier: whole years; every sixth case is run early in the NEXT year, so that the
+    // interrupted write is the first write of a year that is already over
+    let days = if thorough && idx % 6 == 5 {
+        (jan1_jd(year + 1) - jan1_jd(year)) + r.range(1, 5) as i32
+    } else if thorough && idx % 3 == 2 {
+        r.range(300, 366) as i32
+    } else {
+        r.range(25, 45) as i32
+    };
     let lo = jan1_jd(year);
     let today = lo + days;
     let holes = r.below(3) as usize;
@@ -236,7 +244,9 @@ pub fn run_case(id: &str, c: &CrashCase, out: &mut String) {
     for (y, v) in &rem_later {
         out.push_str(&rem_line(*y, v).replacen("in rem", "in later", 1));
     }
-    let target = c.today - 1; // not covered by any older cache: forces the download and the write
+    // a date not covered by any older cache: forces the download and the write — of the case's
+    // year, also when the run takes place early in the next year
+    let target = if c.today >= jan1_jd(c.year + 1) { jan1_jd(c.year + 1) - 2 } else { c.today - 1 };
     // the old cache file, written by an uninterrupted earlier run
     let _ = std::fs::remove_dir_all(&dir);
     std::fs::create_dir_all(&dir).unwrap();
